@@ -246,3 +246,27 @@ def adt_fields(prog, adt):
 def field_index(prog, adt, pred):
     """Indices of fields of `adt` whose type satisfies pred."""
     return [i for i, f in enumerate(adt_fields(prog, adt)) if pred(f["t"])]
+
+
+def is_preserving_copy(prog, body, adt):
+    """True when `body` (e.g. a derived Clone::clone) rebuilds `adt` field-by-field from its own
+    argument of that type: an invariant-preserving copy, not a new construction."""
+    if body.argc != 1:
+        return False
+    t = strip_refs(body.locals[1])
+    if t[0] != "adt" or t[1] != adt:
+        return False
+    S = Session(prog)
+    try:
+        ret = S.eval(body)
+    except Exception:
+        return False
+    if ret is None:
+        return False
+    c = S.canon(ret)
+    if c[0] != "struct" or c[1] != adt:
+        return False
+    for i, f in enumerate(c[3]):
+        if f != ("field", ("arg", 1), i):
+            return False
+    return True
